@@ -366,3 +366,102 @@ func runSigdb(sc M) {
 		snapshot(ev)
 	}
 }
+
+// Family "sigdbbuilt" (C07, second sentence): databases built with the library's own constructors and list-level operations - including
+// lists that hold no entry (a fresh list, a list emptied again) - must encode to a stream that decodes, to a database with the same
+// lists and entries, and that re-encodes to the same bytes.  The programs are short and fixed; the judgement is direct (no history state).
+func init() { families["sigdbbuilt"] = runSigdbBuilt }
+
+func runSigdbBuilt(sc M) {
+	id := sc["sc"]
+	sigdbInit()
+	db := signature.NewSignatureDatabase()
+	var sl *signature.SignatureList
+	want := [][]string{} // per list: type, then owner/data pairs
+	var cur []string
+	bad := []string{}
+	callStart(id, "built", nil)
+	o, _ := guard(func() error {
+		for _, st := range list(sc, "prog") {
+			s := st.([]any)
+			switch s[0].(string) {
+			case "new":
+				sl = signature.NewSignatureList(guidOf(typeGUIDWire, s[1].(string)))
+				cur = []string{s[1].(string)}
+			case "add":
+				if err := sl.AppendBytes(guidOf(ownerGUIDWire, s[1].(string)), sigdbData[s[2].(string)].bytes); err != nil {
+					return err
+				}
+				cur = append(cur, s[1].(string)+"/"+s[2].(string))
+			case "del":
+				if err := sl.RemoveBytes(guidOf(ownerGUIDWire, s[1].(string)), sigdbData[s[2].(string)].bytes); err != nil {
+					return err
+				}
+				for k := 1; k < len(cur); k++ {
+					if cur[k] == s[1].(string)+"/"+s[2].(string) {
+						cur = append(cur[:k:k], cur[k+1:]...)
+						break
+					}
+				}
+			case "appendlist":
+				db.AppendList(sl)
+				want = append(want, cur)
+				sl, cur = nil, nil
+			case "dbappend":
+				if err := db.Append(guidOf(typeGUIDWire, s[1].(string)), guidOf(ownerGUIDWire, s[2].(string)), sigdbData[s[3].(string)].bytes); err != nil {
+					return err
+				}
+				want = append(want, []string{s[1].(string), s[2].(string) + "/" + s[3].(string)})
+			}
+		}
+		enc := db.Bytes()
+		back, err := signature.ReadSignatureDatabase(bytes.NewReader(enc))
+		if err != nil {
+			bad = append(bad, fmt.Sprintf("the encoding of the built database (%d bytes, %d lists) does not decode: %v", len(enc), len(*db), err))
+			return nil
+		}
+		if len(back) != len(want) {
+			bad = append(bad, fmt.Sprintf("built %d lists, decoded %d", len(want), len(back)))
+			return nil
+		}
+		for k, l := range back {
+			if hexs(guidWire(l.SignatureType)) != typeGUIDWire[want[k][0]] || len(l.Signatures) != len(want[k])-1 {
+				bad = append(bad, fmt.Sprintf("list %d decoded with %d entries of another type / count than built (%v)", k, len(l.Signatures), want[k]))
+				continue
+			}
+			for j, e := range l.Signatures {
+				if w := want[k][j+1]; ownerNameOf(e.Owner)+"/"+identifyData(e.Data) != w {
+					bad = append(bad, fmt.Sprintf("list %d entry %d decoded as %s/%s, built as %s", k, j, ownerNameOf(e.Owner), identifyData(e.Data), w))
+				}
+			}
+		}
+		if !bytes.Equal(back.Bytes(), enc) {
+			bad = append(bad, "re-encoding the decoded database gives other bytes")
+		}
+		return nil
+	})
+	if o.Kind == "panic" {
+		bad = append(bad, "panic: "+o.Panic)
+	} else if o.Kind == "error" {
+		bad = append(bad, "a constructor / list operation of the program failed")
+	}
+	emit(M{"sc": id, "ev": "call-end", "call": "built", "agree": len(bad) == 0, "bad": bad})
+}
+
+func ownerNameOf(g util.EFIGUID) string {
+	for n, w := range ownerGUIDWire {
+		if hexs(guidWire(g)) == w {
+			return n
+		}
+	}
+	return "?"
+}
+
+func identifyData(b []byte) string {
+	for id, v := range sigdbData {
+		if bytes.Equal(v.bytes, b) {
+			return id
+		}
+	}
+	return "?"
+}
